@@ -5,6 +5,9 @@
 #[path = "../../corpus/generic.rs"]
 pub mod generic;
 
+#[path = "../../corpus/generic_paths.rs"]
+pub mod generic_paths;
+
 use generic::{Digit, N64};
 
 /// The concrete instantiation used by the harnesses (U = (), deliberately something that is neither
@@ -29,6 +32,25 @@ pub mod named {
     pub type GsInst = crate::generic::gs::sv::InstantiateMsg;
     pub fn gs_constructible() -> (GsQuery, GsQuery) {
         (GsQuery::Value {}, GsQuery::Other { q: 7u32 })
+    }
+
+    /// parameters that reach the signatures only through multi-segment paths (third generic contract)
+    pub type GpExec = crate::generic_paths::gp::sv::ExecMsg<u32>;
+    pub type GpSudo = crate::generic_paths::gp::sv::SudoMsg<u8>;
+    pub type GpQuery = crate::generic_paths::gp::sv::QueryMsg<u32>;
+    pub type GpInst = crate::generic_paths::gp::sv::InstantiateMsg;
+    pub type Gp = crate::generic_paths::gp::Gp<u32, u8, (), u32>;
+    pub fn gp_constructible() -> (GpExec, GpExec, GpSudo, GpQuery, GpInst) {
+        use crate::generic_paths::gp::Wrap;
+        (GpExec::Pv { v: vec![7u32] }, GpExec::Pn { n: 1 }, GpSudo::Po { o: Some(3u8) }, GpQuery::Pq { k: Wrap { w: 9u32 } }, GpInst {})
+    }
+    pub fn gp_same_as_api() {
+        use sylvia::types::ContractApi;
+        fn same<T>(_: Option<T>, _: Option<T>) {}
+        same::<GpExec>(None, None::<<Gp as ContractApi>::Exec>);
+        same::<GpSudo>(None, None::<<Gp as ContractApi>::Sudo>);
+        same::<GpQuery>(None, None::<<Gp as ContractApi>::Query>);
+        same::<GpInst>(None, None::<<Gp as ContractApi>::Instantiate>);
     }
 
     /// ... and they are the types the contract's API aliases resolve to.
@@ -106,6 +128,30 @@ mod h {
         assert!(!accepted::<IfgQuery>("_phantom") && !accepted::<IfgQuery>("__phantom"), "placeholder of the interface message is not a message");
         kani::cover!(accepted::<Exec>(s));
         kani::cover!(!accepted::<Exec>(s));
+    }
+
+    /// Parameters reaching the signatures only through multi-segment paths: the types named with
+    /// exactly those parameters accept exactly their methods' names and encode as usual.
+    #[kani::proof]
+    #[kani::unwind(11)]
+    fn multi_segment_paths() {
+        use crate::named::{GpExec, GpQuery, GpSudo};
+        use support::rec::{K_FIELD, K_STRUCT_VARIANT, K_U64};
+        use support::sym::{in_list, str_eq};
+        let b = any_name::<2>();
+        let s = as_str(&b);
+        assert!(accepted::<GpExec>(s) == in_list(s, &["pn", "pv"]));
+        assert!(accepted::<GpSudo>(s) == in_list(s, &["po"]));
+        assert!(accepted::<GpQuery>(s) == in_list(s, &["pq"]));
+        let x: u64 = kani::any();
+        match (record(&GpExec::Pn { n: x }), record(&GpSudo::Po { o: Some(x as u8) })) {
+            (Ok(e), Ok(u)) => {
+                assert!(e.ev[0].k == K_STRUCT_VARIANT && str_eq(e.ev[0].s, "pn") && e.ev[1].k == K_FIELD && str_eq(e.ev[1].s, "n") && e.ev[2].k == K_U64 && e.ev[2].num == x);
+                assert!(u.ev[0].k == K_STRUCT_VARIANT && str_eq(u.ev[0].s, "po") && u.ev[1].k == K_FIELD && str_eq(u.ev[1].s, "o"));
+            }
+            _ => assert!(false),
+        }
+        kani::cover!(accepted::<GpExec>(s));
     }
 
     /// Decoding: same verdict and same value as the twin for {ga:{a}}, {gb:{b}}, {gb:{}}, {gw:{w}}.
